@@ -32,7 +32,12 @@ RULE = ("A case is a dyadic refinement tree on [a, a+H] (a = k/8, H = odd*2^e: a
         "(and offset, or offset 0, or an O(1) offset with a scaled length) multiplied by 2^-40, 2^-30, ~1e-9, ~1e-7, "
         "~1e-6, ~1e-3, ~1e3 or 2^20 (the decimal ones rounded to an 11-bit mantissa), and about 1 in 7 trees is a "
         "one-sided chain of 20..31 levels (towards a, towards b or zig-zag) with <= 36 points; class counters "
-        "domain-scale=*, offset=*, max-level>=27. Every tolerance is relative to the interval length. Every case is run through all 3 slice groupings x 2 slice versions x 2 "
+        "domain-scale=*, offset=*, max-level>=27. Every tolerance is relative to the interval length. Every sub passes "
+        "grid and level list in a drawn container form (list / tuple / ndarray / list of numpy scalars; class arg-form=*) "
+        "and in half of the draws the caller goes on using ITS OWN containers after set_grid/init_tree (insert the next "
+        "refinement point, refill with another grid, clear, reverse; before the first or between two get_weights calls; "
+        "class caller-modified=*): the answers must be those of the grid given to set_grid (reference: an object that "
+        "received private copies) and the library must not change the caller's containers. Every case is run through all 3 slice groupings x 2 slice versions x 2 "
         "container versions x forced balancing on/off. Non-trivial (sliced, global) = the tree has >= 3 distinct step "
         "widths AND the GROUPED/GROUPED_OPTIMIZED runs built at least one container with >= 2 slices. Non-trivial "
         "(complete) = depth >= 2. Non-trivial (balanced) = >= 3 distinct step widths (>= 7 points). Non-trivial "
@@ -53,6 +58,10 @@ ASSUMPTIONS = [
     "deviation seen is 1e-13*H only for the known Simpson finding on containers of >= 32 slices (which is then "
     "simply not reported), everything else is >= 1e-9*H",
     "LAGRANGE_* containers and ROMBERG_DEFAULT_CONST_SUBTRACTION slices are out of scope (statement)",
+    "argument forms: grid as list, tuple, ndarray or list of np.float64; levels as list, tuple or list of np.int64. An "
+    "ndarray level list is outside the accepted domain (every entry point calls grid_levels[...].index(min(...)))",
+    "GlobalRombergGrid / GlobalBalancedRombergGrid: after the caller changed its containers only the weights are "
+    "compared (coordinate storage of GlobalGrid belongs to other properties)",
     "unusual units: scales ~1e-9 .. ~1e3 are rounded to an 11-bit mantissa (e.g. 1e-9 -> 1.00044e-9); a scale with a "
     "full 53-bit mantissa makes x_i+1 - x_i != (b-a)/2^level in floating point, which set_grid rejects by assertion, so "
     "such grids are outside the accepted input domain; magnitudes from 2^-40*0.25 to 2^20*7 and offsets up to 16 "
@@ -256,12 +265,145 @@ def observed_containers(eg):
     return [(c.slices[0].left_point, c.slices[-1].right_point, len(c.slices)) for c in eg.slice_containers]
 
 
-def judge_weights(out, sub, w, used_xs, a, H, cfg, containers, tag):
+# ----------------------------------------------------------------------------------------------------------------
+# argument forms and caller-side aliasing
+# ----------------------------------------------------------------------------------------------------------------
+# (grid form, level form). An ndarray *level* list is outside the accepted domain: every entry point calls
+# grid_levels[...].index(min(...)), which only list/tuple provide.
+FORM_PAIRS = [["list", "list"], ["tuple", "tuple"], ["list", "list"], ["ndarray", "list"], ["list", "list"],
+              ["list-np.float64", "list-np.int64"], ["list", "list"], ["ndarray", "tuple"], ["list", "list-np.int64"],
+              ["tuple", "list"]]
+MODS = ["none", "insert", "none", "overwrite", "none", "clear", "none", "reverse", "none", "insert"]
+MODSUF = "/after-caller-modified-its-list"
+
+
+def as_form(values, form):
+    import numpy as np
+    if form == "list":
+        return list(values)
+    if form == "tuple":
+        return tuple(values)
+    if form == "ndarray":
+        return np.array(values, dtype=float)
+    if form == "list-np.float64":
+        return [np.float64(v) for v in values]
+    if form == "list-np.int64":
+        return [np.int64(v) for v in values]
+    raise ValueError("harness: unknown form %r" % (form,))
+
+
+def plain(container):
+    """content of a container as Python scalars"""
+    return [v.item() if hasattr(v, "item") else v for v in container]
+
+
+def floats(seq):
+    return [float(x) for x in seq]
+
+
+def _modify_container(c, mod, idx, new_value, other):
+    """the caller changes ITS OWN container in place (what the container type allows)"""
+    import numpy as np
+    if isinstance(c, tuple):
+        return
+    if isinstance(c, np.ndarray):          # a work buffer of fixed size: refilled, zeroed or reversed in place
+        if mod in ("insert", "overwrite"):
+            c[:] = c + (c[-1] - c[0])      # the grid of the neighbouring interval
+        elif mod == "clear":
+            c[:] = 0.0
+        elif mod == "reverse":
+            c[:] = c[::-1].copy()
+        return
+    conv = type(c[0]) if len(c) else float
+    if mod == "insert":                    # the next refinement point is inserted in place
+        c.insert(idx + 1, conv(new_value))
+    elif mod == "overwrite":               # the buffer is refilled with another grid
+        c[:] = [conv(v) for v in other]
+    elif mod == "clear":
+        del c[:]
+    elif mod == "reverse":
+        c.reverse()
+
+
+class CallerArgs:
+    """the caller's own grid / level containers in a drawn form, with a snapshot of what was given to the library"""
+
+    def __init__(self, xs, levels, form):
+        self.form = list(form)
+        self.g = as_form(xs, form[0])
+        self.l = as_form(levels, form[1])
+        self.g0, self.l0 = plain(self.g), plain(self.l)
+        self.types = (type(self.g), type(self.l))
+
+    def unmodified(self):
+        return (type(self.g), type(self.l)) == self.types and plain(self.g) == self.g0 and plain(self.l) == self.l0
+
+    def modify(self, mod, at, other_xs, other_levels):
+        """returns True iff the content of one of the containers changed"""
+        if mod == "none":
+            return False
+        i = at % (len(self.g0) - 1)
+        _modify_container(self.g, mod, i, (self.g0[i] + self.g0[i + 1]) / 2, other_xs)
+        _modify_container(self.l, mod, i, max(self.l0[i], self.l0[i + 1]) + 1, other_levels)
+        return plain(self.g) != self.g0 or plain(self.l) != self.l0
+
+    def label(self):
+        return "%s+%s" % tuple(self.form)
+
+
+def aliasing_params(case):
+    return (case.get("form", ["list", "list"]), case.get("mod", "none"), case.get("mod_when", "before"), case.get("mod_at", 0))
+
+
+def draw_aliasing(draw):
+    return dict(form=draw(st.sampled_from(FORM_PAIRS)), mod=draw(st.sampled_from(MODS)),
+                mod_when=draw(st.sampled_from(["before", "between"])), mod_at=draw(st.integers(0, 40)))
+
+
+def aliasing_classes(out, form, mod, when, modified):
+    out.cls("arg-form=%s+%s" % tuple(form))
+    if modified:
+        out.cls("caller-modified=%s-%s-get_weights" % (mod, when))
+    elif mod != "none":
+        out.cls("caller-modification-not-possible(immutable)")
+
+
+def read_back_grid(out, sub, eg, args, xs, levels, modified):
+    """grid the weights of a non-forcing ExtrapolationGrid belong to = the grid that was given to set_grid.
+    Returns False if get_grid()/get_grid_levels() disagree for a reason other than the (separately signed) cause
+    'the object hands out the caller's own list'."""
+    got_g, got_l = eg.get_grid(), eg.get_grid_levels()
+    if plain(got_g) == xs and plain(got_l) == levels:
+        return True
+    if modified and (got_g is args.g or got_l is args.l):
+        out.bad(sub + "/get-grid-returns-callers-list" + MODSUF,
+                "get_grid()/get_grid_levels() return the caller's own container (same object), which the caller has changed "
+                "since set_grid: %s instead of the grid given to set_grid %s" % (plain(got_g)[:12], xs[:12]))
+        return True
+    out.bad(sub + "/grid-changed-without-forcing" + (MODSUF if modified else ""),
+            "get_grid()/get_grid_levels() differ from the grid given to set_grid (form %s)" % args.label())
+    return False
+
+
+def call_after_modification(fn, *a):
+    """run a library call after the caller changed its containers; returns (value, None) or (None, exception) for an
+    exception raised inside sparseSpACE (classified by the caller), re-raises harness exceptions"""
+    from vlib.core import classify_exception
+    try:
+        return quiet(fn, *a), None
+    except Exception as e:  # noqa
+        kind, frag, text = classify_exception(e)
+        if kind != "lib":
+            raise
+        return None, (e, frag)
+
+
+def judge_weights(out, sub, w, used_xs, a, H, cfg, containers, tag, suffix=""):
     """len / sum / linear clauses for one weight vector. cfg = (sg, sv, cv, force).
     Returns 'ok', 'simpson' (deviation explained by the known Simpson cause) or 'bad'."""
     sg, sv, cv, force = cfg
     multi = any(n >= 2 for (_, _, n) in containers)
-    where = "%s-%s" % (cv.lower(), "grouped" if multi else "unit")
+    where = "%s-%s%s" % (cv.lower(), "grouped" if multi else "unit", suffix)
     desc = "%s grouping=%s slices=%s containers=%s forced=%s a=%r H=%r grid=%s" % (tag, sg, sv, cv, force, a, H, used_xs[:24])
     if len(w) != len(used_xs):
         out.bad("%s/length/%s" % (sub, where), "%d weights for %d grid points; %s" % (len(w), len(used_xs), desc))
@@ -322,55 +464,107 @@ def run_sliced(case):
     c0, c1 = case["lin"]
     lin = Polynomial1d([c0, c1])
     lin_exact = float(F(c0) * (F(b) - F(a)) + F(c1) * (F(b) ** 2 - F(a) ** 2) / 2)
-    any_multi = any_simpson = added = False
+    any_multi = any_simpson = added = any_modified = False
+    form, mod, when, at = aliasing_params(case)
+    f_lin = lambda x: c0 + c1 * x
     for cfg in all_configs():
         sg, sv, cv, force = cfg
         if force and len(xs) < 3:
             continue
-        # fresh object
+        # object A: fresh; the caller keeps (and in a share of the cases changes) the containers it passed
+        args = CallerArgs(xs, levels, form)
         eg = make_grid(*cfg)
-        quiet(eg.set_grid, list(xs), list(levels))
-        w = list(eg.get_weights())
-        used = list(eg.get_grid())
-        used_levels = list(eg.get_grid_levels())
+        quiet(eg.set_grid, args.g, args.l)
+        if not args.unmodified():
+            out.bad(sub + "/set_grid/caller-argument-modified", "set_grid changed the caller's containers (form %s): %s %s -> %s %s; cfg=%s"
+                    % (args.label(), xs[:10], levels[:10], plain(args.g)[:10], plain(args.l)[:10], cfg))
+            continue
+        modified = when == "before" and args.modify(mod, at, xs2, levels2)
+        w = floats(eg.get_weights())
+        if when == "between":
+            modified = args.modify(mod, at, xs2, levels2)
+        any_modified = any_modified or modified
+        suffix = MODSUF if modified else ""
         if not force:
-            if used != xs or used_levels != levels:
-                out.bad(sub + "/grid-changed-without-forcing", "get_grid()/get_grid_levels() differ from the input; %s" % (cfg,))
+            if not read_back_grid(out, sub, eg, args, xs, levels, modified):
                 continue
+            used, used_levels = xs, levels
         else:
+            used, used_levels = plain(eg.get_grid()), plain(eg.get_grid_levels())
             for clause, msg in check_full_tree(used, used_levels, xs, levels, a, H):
-                out.bad("%s/forced-%s" % (sub, clause), "%s; cfg=%s input=%s levels=%s" % (msg, cfg, xs, levels))
+                out.bad("%s/forced-%s%s" % (sub, clause, suffix), "%s; cfg=%s input=%s levels=%s" % (msg, cfg, xs, levels))
             if any(v[0].startswith(sub + "/forced-") for v in out.violations):
                 continue
             added = added or len(used) > len(xs)
         containers = observed_containers(eg)
         multi = any(n >= 2 for (_, _, n) in containers)
         any_multi = any_multi or (multi and sg != "UNIT" and not force)
-        status = judge_weights(out, sub, w, used, a, H, cfg, containers, "fresh")
+        status = judge_weights(out, sub, w, used, a, H, cfg, containers, "fresh form=%s caller-mod=%s" % (args.label(), mod if modified else "none"),
+                               suffix if when == "before" else "")
         any_simpson = any_simpson or status == "simpson"
-        # the same call again must give the same weights (no hidden state in slices/containers)
-        w_again = list(eg.get_weights()) if max(levels) <= 16 else w       # (skipped on deep chains: cost)
+        # the same call again must give the same weights (no hidden state in slices/containers, none in the caller's lists)
+        w_again = floats(eg.get_weights()) if (max(levels) <= 16 or modified) else w       # (skipped on deep chains: cost)
         if w_again != w:
-            out.bad(sub + "/get-weights-not-repeatable", "second get_weights() differs; cfg=%s" % (cfg,))
-        # re-used object: other grid first (weights computed), then this grid; integrate() must use the new weights
+            out.bad(sub + "/get-weights-not-repeatable" + suffix, "second get_weights() differs (%d vs %d weights, sums %r vs %r); "
+                    "caller-mod=%s form=%s cfg=%s" % (len(w), len(w_again), math.fsum(w), math.fsum(w_again), mod if modified else "none", args.label(), cfg))
+        if not args.unmodified() and not modified:
+            out.bad(sub + "/get_weights/caller-argument-modified", "get_weights changed the caller's containers (form %s); cfg=%s" % (args.label(), cfg))
+        sc = max(abs(H), math.fsum(abs(x) for x in w)) * (abs(c0) + abs(c1) * max(abs(a), abs(b)))
+        ref = math.fsum(wi * f_lin(x) for wi, x in zip(w, used)) if len(w) == len(used) else None
+        # object B: private copies in the same form; re-used: other grid first (weights computed), then this grid;
+        # integrate() must use the new weights; its answers are the reference for object A
         if len(xs2) >= 3 or not force:
             eg2 = make_grid(*cfg)
-            quiet(eg2.set_grid, list(xs2), list(levels2))
+            quiet(eg2.set_grid, as_form(xs2, form[0]), as_form(levels2, form[1]))
             quiet(eg2.integrate, lin)
-            quiet(eg2.set_grid, list(xs), list(levels))
+            quiet(eg2.set_grid, as_form(xs, form[0]), as_form(levels, form[1]))
             val = quiet(eg2.integrate, lin)
-            w2 = list(eg2.get_weights())
+            w2 = floats(eg2.get_weights())
             if w2 != w:
-                out.bad(sub + "/reused-object-weights-differ", "weights after set_grid(other); set_grid(this) differ from a "
-                        "fresh object; cfg=%s" % (cfg,))
-            else:
-                ref = math.fsum(wi * (c0 + c1 * x) for wi, x in zip(w, used))
-                sc = max(abs(H), math.fsum(abs(x) for x in w)) * (abs(c0) + abs(c1) * max(abs(a), abs(b)))
+                if modified:
+                    out.bad(sub + "/weights-differ-from-private-copy-object" + MODSUF, "weights of the object whose argument lists the caller "
+                            "changed (%s, %s get_weights) differ from an object that was given private copies: %d vs %d weights, sums "
+                            "%r vs %r; form=%s cfg=%s" % (mod, when, len(w), len(w2), math.fsum(w), math.fsum(w2), args.label(), cfg))
+                else:
+                    out.bad(sub + "/reused-object-weights-differ", "weights after set_grid(other); set_grid(this) differ from a "
+                            "fresh object; form=%s cfg=%s" % (args.label(), cfg))
+            elif ref is not None:
                 if abs(float(val) - ref) > TOL * sc:
                     out.bad(sub + "/integrate-differs-from-weights", "integrate(lin)=%r, sum(w*f(x))=%r after re-using the object; "
                             "cfg=%s" % (val, ref, cfg))
                 elif status == "ok" and abs(float(val) - lin_exact) > TOL * sc:
                     out.bad(sub + "/integrate-linear", "integrate(%s+%s x)=%r exact %r; cfg=%s" % (c0, c1, val, lin_exact, cfg))
+        # object A again: integrate() after the caller changed its lists must still be sum(w*f(x)) on the given grid
+        if modified and ref is not None:
+            valA, exc = call_after_modification(eg.integrate, lin)
+            cur = plain(args.g)
+            reads_callers_list = (not force) and (eg.get_grid() is args.g)
+            if exc is not None:
+                e, frag = exc
+                if reads_callers_list and isinstance(e, AssertionError) and frag.endswith(":integrate") and (len(cur) != len(w) or len(cur) < 2):
+                    out.bad(sub + "/integrate-reads-callers-list" + MODSUF, "integrate() after the caller %s its list: AssertionError (%s): "
+                            "the object holds the caller's list (same object, now %d points) next to %d weights; cfg=%s"
+                            % (mod, str(e)[:60], len(cur), len(w), cfg))
+                else:
+                    out.bad("%s/exception/%s%s" % (sub, frag, MODSUF), "%s: %s; caller-mod=%s cfg=%s" % (type(e).__name__, e, mod, cfg))
+            elif abs(float(valA) - ref) > TOL * sc:
+                pred = math.fsum(wi * f_lin(x) for wi, x in zip(w, cur)) if len(cur) == len(w) else None
+                if reads_callers_list and pred is not None and abs(float(valA) - pred) <= TOL * sc:
+                    out.bad(sub + "/integrate-reads-callers-list" + MODSUF, "integrate(lin)=%r after the caller %s its list, sum(w*f(x)) on the grid "
+                            "given to set_grid is %r; the value equals sum(w_i*f(callers_list[i]))=%r (the object holds the caller's list, same "
+                            "object); cfg=%s" % (valA, mod, ref, pred, cfg))
+                else:
+                    out.bad(sub + "/integrate" + MODSUF, "integrate(lin)=%r after the caller %s its list, expected %r; cfg=%s" % (valA, mod, ref, cfg))
+        # object C: the same grid as plain Python lists (only when another form is in use)
+        if form != ["list", "list"] and len(w) == len(used):
+            eg3 = make_grid(*cfg)
+            quiet(eg3.set_grid, list(xs), list(levels))
+            w3 = floats(eg3.get_weights())
+            tolw = 1e-13 * max(abs(H), math.fsum(abs(x) for x in w))
+            if len(w3) != len(w) or any(abs(x - y) > tolw for x, y in zip(w, w3)):
+                out.bad("%s/weights/argument-form=%s" % (sub, args.label()), "weights for the grid passed as %s differ from the weights "
+                        "for plain lists: %s vs %s; cfg=%s" % (args.label(), w[:6], w3[:6], cfg))
+    aliasing_classes(out, form, mod, when, any_modified)
     nwidths = distinct_widths(ts)
     runs = equal_width_runs(ts)
     out.nontrivial = nwidths >= 3 and any_multi
@@ -491,7 +685,9 @@ def sliced_strategy(tier):
         splits2 = draw(st.lists(st.integers(0, 63), min_size=0, max_size=6))
         a, H, label, mode = tree_params(draw, tier, max(depth_of(base, splits), depth_of(base2, splits2)))
         lin = [draw(st.integers(-3, 3)), draw(st.sampled_from([1, -2, 3, 0.5]))]
-        return dict(a=a, H=H, scale=label, offset=mode, base=base, splits=splits, base2=base2, splits2=splits2, lin=lin)
+        case = dict(a=a, H=H, scale=label, offset=mode, base=base, splits=splits, base2=base2, splits2=splits2, lin=lin)
+        case.update(draw_aliasing(draw))
+        return case
     return s()
 
 
@@ -516,51 +712,115 @@ def sliced_fixed():
 # ----------------------------------------------------------------------------------------------------------------
 # sub: complete
 # ----------------------------------------------------------------------------------------------------------------
+def balanced_weights(out, sub, xs, levels, case, other_xs, other_levels):
+    """weights of BalancedExtrapolationGrid for the grid (xs, levels) from an object that was given private copies (the
+    reference, judged by the callers' oracles); a second object is given containers which the caller keeps using."""
+    from sparseSpACE.Extrapolation import BalancedExtrapolationGrid
+    form, mod, when, at = aliasing_params(case)
+    ref_obj = BalancedExtrapolationGrid()
+    quiet(ref_obj.set_grid, as_form(xs, form[0]), as_form(levels, form[1]))
+    w_ref = floats(ref_obj.get_weights())
+    args = CallerArgs(xs, levels, form)
+    bg = BalancedExtrapolationGrid()
+    quiet(bg.set_grid, args.g, args.l)
+    if not args.unmodified():
+        out.bad(sub + "/set_grid/caller-argument-modified", "BalancedExtrapolationGrid.set_grid changed the caller's containers (form %s)" % args.label())
+        return w_ref, False
+    modified = when == "before" and args.modify(mod, at, other_xs, other_levels)
+    answers = [call_after_modification(bg.get_weights)]
+    if when == "between":
+        modified = args.modify(mod, at, other_xs, other_levels)
+        answers.append(call_after_modification(bg.get_weights))
+    suffix = MODSUF if modified else ""
+    refmap = dict(zip(xs, w_ref))
+    for i, (w, exc) in enumerate(answers):
+        after_mod = modified and (when == "before" or i == 1)
+        if exc is not None:
+            e, frag = exc
+            out.bad("%s/exception/%s%s" % (sub, frag, suffix if after_mod else ""), "%s: %s (balanced get_weights, caller-mod=%s)" % (type(e).__name__, e, mod))
+            continue
+        w = floats(w)
+        if w == w_ref:
+            continue
+        if after_mod and len(w_ref) == len(xs) and w == [refmap.get(p, 0.0) for p in plain(args.g)]:
+            out.bad(sub + "/weights-follow-callers-list" + MODSUF, "BalancedExtrapolationGrid.get_weights() after the caller %s its list: "
+                    "%d weights (sum %r) = [weight of p if p was in the given grid else 0 for p in the caller's CURRENT list]; the "
+                    "grid given to set_grid has %d points, weight sum %r" % (mod, len(w), math.fsum(w), len(xs), math.fsum(w_ref)))
+        else:
+            out.bad(sub + "/weights-differ-from-private-copy-object" + (suffix if after_mod else ""), "balanced weights differ from an object "
+                    "that was given private copies: %s vs %s (form %s, caller-mod=%s)" % (w[:6], w_ref[:6], args.label(), mod if after_mod else "none"))
+    if not modified and not args.unmodified():
+        out.bad(sub + "/get_weights/caller-argument-modified", "BalancedExtrapolationGrid.get_weights changed the caller's containers")
+    if form != ["list", "list"]:
+        plain_obj = BalancedExtrapolationGrid()
+        quiet(plain_obj.set_grid, list(xs), list(levels))
+        w3 = floats(plain_obj.get_weights())
+        tolw = 1e-13 * max(abs(xs[-1] - xs[0]), math.fsum(abs(x) for x in w_ref))
+        if len(w3) != len(w_ref) or any(abs(x - y) > tolw for x, y in zip(w_ref, w3)):
+            out.bad("%s/weights/argument-form=%s" % (sub, args.label()), "balanced weights for the grid passed as %s differ from the weights "
+                    "for plain lists: %s vs %s" % (args.label(), w_ref[:6], w3[:6]))
+    return w_ref, modified
+
+
 def default_romberg_effective(sg, sv, cv):
     return (sg == "UNIT" and sv == "ROMBERG_DEFAULT") or (sg != "UNIT" and cv == "ROMBERG_DEFAULT")
 
 
 def run_complete(case):
-    from sparseSpACE.Extrapolation import BalancedExtrapolationGrid
     out = Outcome()
     sub = "complete"
     a, H, m = case["a"], case["H"], case["m"]
     ts = complete_ts(m)
     xs, levels = to_grid(a, H, ts)
     worst = 0.0
+    form, mod, when, at = aliasing_params(case)
+    other_xs, other_levels = to_grid(a, H, complete_ts(m + 1))      # what the caller refills its buffers with
+    any_modified = False
     for cfg in all_configs():
         sg, sv, cv, force = cfg
+        args = CallerArgs(xs, levels, form)
         eg = make_grid(*cfg)
-        quiet(eg.set_grid, list(xs), list(levels))
-        w = list(eg.get_weights())
-        used = list(eg.get_grid())
-        changed = used != xs or list(eg.get_grid_levels()) != levels
-        if changed and not force:
-            out.bad(sub + "/grid-changed-without-forcing", "get_grid()/get_grid_levels() differ from the input: %d -> %d points"
-                    % (len(xs), len(used)))
+        quiet(eg.set_grid, args.g, args.l)
+        if not args.unmodified():
+            out.bad(sub + "/set_grid/caller-argument-modified", "set_grid changed the caller's containers (form %s); cfg=%s" % (args.label(), cfg))
             continue
+        modified = when == "before" and args.modify(mod, at, other_xs, other_levels)
+        w = floats(eg.get_weights())
+        suffix = MODSUF if modified else ""
+        if when == "between":
+            modified = args.modify(mod, at, other_xs, other_levels)
+            if modified and floats(eg.get_weights()) != w:
+                out.bad(sub + "/get-weights-not-repeatable" + MODSUF, "second get_weights() differs after the caller %s its list; cfg=%s" % (mod, cfg))
+        any_modified = any_modified or modified
+        changed = False
+        if not force:
+            if not read_back_grid(out, sub, eg, args, xs, levels, modified):
+                continue
+            used = xs
+        else:
+            used = plain(eg.get_grid())
+            changed = used != xs or plain(eg.get_grid_levels()) != levels
         if changed:
             # forcing may only add points; the degree clause speaks about the complete grid, so it is skipped then
             out.cls("forcing-changed-a-complete-grid")
-            bad_tree = check_full_tree(used, list(eg.get_grid_levels()), xs, levels, a, H)
+            bad_tree = check_full_tree(used, plain(eg.get_grid_levels()), xs, levels, a, H)
             for clause, msg in bad_tree:
-                out.bad("%s/forced-%s" % (sub, clause), "%s; cfg=%s" % (msg, cfg))
+                out.bad("%s/forced-%s%s" % (sub, clause, suffix), "%s; cfg=%s" % (msg, cfg))
             if bad_tree:
                 continue
         containers = observed_containers(eg)
-        status = judge_weights(out, sub, w, used, a, H, cfg, containers, "complete m=%d" % m)
+        status = judge_weights(out, sub, w, used, a, H, cfg, containers, "complete m=%d form=%s caller-mod=%s" % (m, args.label(), mod if suffix else "none"), suffix)
         if changed or len(w) != len(xs) or not default_romberg_effective(sg, sv, cv):
             continue
         for k, basis, err, scale in moment_errors([float(x) for x in w], ts, H, 2 * m + 1):
             worst = max(worst, err / scale)
             if err > TOL * scale:
-                out.bad("%s/degree/sliced-%s" % (sub, "grouped" if sg != "UNIT" else "unit"),
+                out.bad("%s/degree/sliced-%s%s" % (sub, "grouped" if sg != "UNIT" else "unit", suffix),
                         "depth m=%d grouping=%s slices=%s containers=%s forced=%s: monomial %s^%d (<= 2m+1=%d) error %.3g "
                         "(tol %.2g) on [%r,%r]" % (m, sg, sv, cv, force, basis, k, 2 * m + 1, err, TOL * scale, a, a + H))
                 break
-    bg = BalancedExtrapolationGrid()
-    quiet(bg.set_grid, list(xs), list(levels))
-    w = [float(x) for x in bg.get_weights()]
+    w, bal_modified = balanced_weights(out, sub, xs, levels, case, other_xs, other_levels)
+    aliasing_classes(out, form, mod, when, any_modified or bal_modified)
     if len(w) != len(xs):
         out.bad(sub + "/length/balanced", "%d weights for %d points" % (len(w), len(xs)))
     else:
@@ -581,8 +841,10 @@ def complete_strategy(tier):
     @st.composite
     def s(draw):
         m = draw(st.integers(1, 6 if tier == "quick" else 7))
-        a, H, label, mode = tree_params(draw, tier, m)
-        return dict(a=a, H=H, scale=label, offset=mode, m=m)
+        a, H, label, mode = tree_params(draw, tier, m + 1)
+        case = dict(a=a, H=H, scale=label, offset=mode, m=m)
+        case.update(draw_aliasing(draw))
+        return case
     return s()
 
 
@@ -598,7 +860,7 @@ def complete_fixed():
 # sub: balanced
 # ----------------------------------------------------------------------------------------------------------------
 def run_balanced(case):
-    from sparseSpACE.Extrapolation import BalancedExtrapolationGrid, GridBinaryTree
+    from sparseSpACE.Extrapolation import GridBinaryTree
     from sparseSpACE.Grid import GlobalBalancedRombergGrid
     out = Outcome()
     sub = "balanced"
@@ -612,14 +874,15 @@ def run_balanced(case):
         tree = GridBinaryTree()
         quiet(tree.init_tree, list(xs0), list(levels0))
         quiet(tree.force_full_tree_invariant)
-        xs, levels = list(tree.get_grid()), list(tree.get_grid_levels())
+        xs, levels = plain(tree.get_grid()), plain(tree.get_grid_levels())
         if check_full_tree(xs, levels, xs0, levels0, a, H):
             out.cls("forced-tree-invalid(skipped)")   # reported by sub bintree, not here
             return out
         ts = ts_of(a, H, xs)
-    bg = BalancedExtrapolationGrid()
-    quiet(bg.set_grid, list(xs), list(levels))
-    w = [float(x) for x in bg.get_weights()]
+    form, mod, when, at = aliasing_params(case)
+    other_xs, other_levels = to_grid(a, H, complete_ts(2))
+    w, modified = balanced_weights(out, sub, xs, levels, case, other_xs, other_levels)
+    aliasing_classes(out, form, mod, when, modified)
     desc = "a=%r H=%r grid=%s levels=%s" % (a, H, xs[:30], levels[:30])
     if len(w) != len(xs):
         out.bad(sub + "/length/balanced", "%d weights for %d points; %s" % (len(w), len(xs), desc))
@@ -633,10 +896,13 @@ def run_balanced(case):
     a2, H2 = case["a2"], case["H2"]
     xs_b, _ = to_grid(a2, H2, ts)
     gg = GlobalBalancedRombergGrid([a, a2], [a + H, a2 + H2], boundary=False)
-    quiet(gg.set_grid, [list(xs), list(xs_b)], [list(levels), list(levels)])
+    gargs = [CallerArgs(xs, levels, form), CallerArgs(xs_b, levels, form)]
+    quiet(gg.set_grid, [g.g for g in gargs], [g.l for g in gargs])
+    if not all(g.unmodified() for g in gargs):
+        out.bad(sub + "/set_grid/caller-argument-modified", "GlobalBalancedRombergGrid.set_grid changed the caller's containers (form %s)" % gargs[0].label())
     for d, (xx, aa, HH) in enumerate([(xs, a, H), (xs_b, a2, H2)]):
         wd = [float(x) for x in gg.weights[d]]
-        if len(wd) != len(xx) - 2 or list(gg.coordinate_array[d]) != xx[1:-1]:
+        if len(wd) != len(xx) - 2 or plain(gg.coordinate_array[d]) != xx[1:-1]:
             out.bad(sub + "/length/global-balanced", "dimension %d: %d weights for %d inner points" % (d, len(wd), len(xx) - 2))
             continue
         dev0, dev1, scale = check_sum_linear(wd, ts[1:-1], HH)
@@ -677,6 +943,7 @@ def balanced_strategy(tier):
         a, H, label, mode = tree_params(draw, tier, depth)
         a2, H2, label2, mode2 = tree_params(draw, tier, depth)
         case.update(a=a, H=H, a2=a2, H2=H2, scale=label, offset=mode, scale2=label2)
+        case.update(draw_aliasing(draw))
         return case
     return s()
 
@@ -702,17 +969,35 @@ def run_bintree(case):
     for base, splits in ((case["base2"], case["splits2"]), (case["base"], case["splits"])):
         ts = tree_from_splits(base, splits)
         trees.append((ts,) + to_grid(a, H, ts))
-    added = False
+    added = modified = False
+    form, mod, when, at = aliasing_params(case)
     for idx, (ts, xs, levels) in enumerate(trees):     # the singleton is re-used: other tree first, then this one
         tree = GridBinaryTree()
-        quiet(tree.init_tree, list(xs), list(levels))
-        g0, l0 = list(tree.get_grid()), list(tree.get_grid_levels())
+        args = CallerArgs(xs, levels, form)
+        quiet(tree.init_tree, args.g, args.l)
+        if not args.unmodified():
+            out.bad(sub + "/init_tree/caller-argument-modified", "init_tree changed the caller's containers (form %s)" % args.label())
+            continue
+        g0, l0 = plain(tree.get_grid()), plain(tree.get_grid_levels())
         if g0 != xs or l0 != levels:
             out.cls("init_tree-changed-the-grid")       # not a clause of the statement by itself; judged after forcing
+        suffix = ""
+        if idx == 1 and when == "before":               # the caller goes on using its lists before the tree is completed
+            modified = args.modify(mod, at, trees[0][1], trees[0][2])
+            suffix = MODSUF if modified else ""
         quiet(tree.force_full_tree_invariant)
-        g1, l1 = list(tree.get_grid()), list(tree.get_grid_levels())
+        g1, l1 = plain(tree.get_grid()), plain(tree.get_grid_levels())
+        if idx == 1 and when == "between":
+            modified = args.modify(mod, at, trees[0][1], trees[0][2])
+            suffix = MODSUF if modified else ""
+            if modified and (plain(tree.get_grid()) != g1 or plain(tree.get_grid_levels()) != l1):
+                out.bad(sub + "/get-grid-not-repeatable" + MODSUF, "get_grid()/get_grid_levels() of the completed tree changed after "
+                        "the caller %s its list" % mod)
+        if not modified and not args.unmodified():
+            out.bad(sub + "/force_full_tree_invariant/caller-argument-modified", "forcing changed the caller's containers (form %s): %s -> %s"
+                    % (args.label(), xs, plain(args.g)))
         for clause, msg in check_full_tree(g1, l1, xs, levels, a, H):
-            out.bad("%s/forced-%s" % (sub, clause), "%s; input=%s levels=%s output=%s levels=%s" % (msg, xs, levels, g1, l1))
+            out.bad("%s/forced-%s%s" % (sub, clause, suffix), "%s; input=%s levels=%s output=%s levels=%s" % (msg, xs, levels, g1, l1))
         if out.violations:
             continue
         if idx == 1:
@@ -727,6 +1012,7 @@ def run_bintree(case):
     if max(levels) >= 8:
         out.cls("depth>=8")
     scale_classes(out, case.get("scale", "1"), case.get("offset", "scaled"), max(levels))
+    aliasing_classes(out, form, mod, when, modified)
     return out
 
 
@@ -739,7 +1025,9 @@ def bintree_strategy(tier):
         base2 = draw(st.integers(1, 2))
         splits2 = draw(st.lists(st.integers(0, 63), min_size=0, max_size=8))
         a, H, label, mode = tree_params(draw, tier, max(depth_of(base, splits), depth_of(base2, splits2)) + 1)
-        return dict(a=a, H=H, scale=label, offset=mode, base=base, splits=splits, base2=base2, splits2=splits2)
+        case = dict(a=a, H=H, scale=label, offset=mode, base=base, splits=splits, base2=base2, splits2=splits2)
+        case.update(draw_aliasing(draw))
+        return case
     return s()
 
 
@@ -780,40 +1068,52 @@ def run_global(case):
             tss.append(ts)
         sets.append((pts, lvs, tss))
     first = {}
-    any_multi = any_simpson = repeated = False
+    any_multi = any_simpson = repeated = any_modified = False
+    form, mod, when, at = aliasing_params(case)
     nw = 0
     for step, k in enumerate(case["seq"]):
         k = k % nsets
         pts, lvs, tss = sets[k]
         if case["reset_between"]:
             grid.initialize_grid()
-        quiet(grid.set_grid, [list(p) for p in pts], [list(l) for l in lvs])
+        gargs = [CallerArgs(pts[d], lvs[d], form) for d in range(dim)]
+        quiet(grid.set_grid, [g.g for g in gargs], [g.l for g in gargs])
+        if not all(g.unmodified() for g in gargs):
+            out.bad(sub + "/set_grid/caller-argument-modified", "GlobalRombergGrid.set_grid changed the caller's containers (form %s)" % gargs[0].label())
+            break
+        coords_ok = [plain(grid.coordinate_array[d]) == pts[d] for d in range(dim)]
+        # the caller re-uses its buffers (next refinement step / next grid) before it reads the weights
+        other = sets[(k + 1) % nsets]
+        modified = [gargs[d].modify(mod, at, other[0][d], other[1][d]) for d in range(dim)]
+        any_modified = any_modified or any(modified)
         for d in range(dim):
             w = [float(x) for x in grid.weights[d]]
-            if list(grid.coordinate_array[d]) != pts[d]:
+            suffix = MODSUF if modified[d] else ""
+            if not coords_ok[d]:
                 out.bad(sub + "/coordinates-changed", "step %d dim %d" % (step, d))
                 continue
             eg = make_grid(sg, sv, cv, False)          # fresh, uncached reference for container structure and weights
-            quiet(eg.set_grid, list(pts[d]), list(lvs[d]))
+            quiet(eg.set_grid, as_form(pts[d], form[0]), as_form(lvs[d], form[1]))
             containers = observed_containers(eg)
             any_multi = any_multi or any(n >= 2 for (_, _, n) in containers)
             nw = max(nw, distinct_widths(tss[d]))
             status = judge_weights(out, sub, w, pts[d], dims[d]["a"], dims[d]["H"], (sg, sv, cv, False), containers,
-                                    "global step %d dim %d do_cache=%s" % (step, d, case["do_cache"]))
+                                    "global step %d dim %d do_cache=%s form=%s" % (step, d, case["do_cache"], gargs[d].label()), suffix)
             any_simpson = any_simpson or status == "simpson"
             fresh = [float(x) for x in eg.get_weights()]
             if w != fresh:
-                out.bad(sub + "/cached-differs-from-uncached", "step %d (grid set %d) dim %d: weights from GlobalRombergGrid(do_cache=%s) "
+                out.bad(sub + "/cached-differs-from-uncached" + suffix, "step %d (grid set %d) dim %d: weights from GlobalRombergGrid(do_cache=%s) "
                         "differ from a fresh ExtrapolationGrid: %s vs %s; grid=%s" % (step, k, d, case["do_cache"], w[:8], fresh[:8], pts[d][:16]))
             key = (k, d)
             if key in first:
                 repeated = True
                 if first[key] != w:
-                    out.bad(sub + "/same-grid-twice-differs", "step %d (grid set %d) dim %d: weights differ from the first time" % (step, k, d))
+                    out.bad(sub + "/same-grid-twice-differs" + suffix, "step %d (grid set %d) dim %d: weights differ from the first time" % (step, k, d))
             else:
                 first[key] = w
     out.nontrivial = nw >= 3 and any_multi and repeated
     out.cls("dim=%d" % dim, "cache=%s" % case["do_cache"])
+    aliasing_classes(out, form, mod, when, any_modified)
     for d in range(dim):
         scale_classes(out, dims[d].get("scale", "1"), dims[d].get("offset", "scaled"),
                       max(max(lv[d]) for (_, lv, _) in sets))
@@ -852,8 +1152,10 @@ def global_strategy(tier):
             a, H, label, mode = tree_params(draw, tier, max(depth_of(b, sp) for b, sp in trees))
             dims.append(dict(a=a, H=H, scale=label, offset=mode, trees=trees))
         seq = draw(st.lists(st.integers(0, 2), min_size=2, max_size=6))
-        return dict(cfg=cfg, dims=dims, seq=seq, do_cache=draw(st.sampled_from([True, True, False])),
+        case = dict(cfg=cfg, dims=dims, seq=seq, do_cache=draw(st.sampled_from([True, True, False])),
                     reset_between=draw(st.booleans()))
+        case.update(draw_aliasing(draw))
+        return case
     return s()
 
 
